@@ -17,6 +17,9 @@ CLAIMED = {
  "C20": ("Bounded model checking, differential: every fastlog scalar appender, MAC, IPv4/IPv6 (RFC 5952) rendering and three-field concatenation is executed symbolically from the real SSA with a symbolic cursor and arbitrary old buffer contents and compared byte for byte with reference renderers; array appenders are checked for staying inside the 2048-byte buffer with symbolic cursor and lengths up to 4096.",
          "Trusted: go/ssa, gse semantics, z3, reference renderers (validated natively against net/netip on 200000 addresses in ./check selftest). Value coverage per evidence.bounds (one non-constant IPv6 group / MAC byte / IPv4 octet at a time). View String()/FastLog renderers are outside the claim.",
          "DESIGN.md §4 C20", "differential bounded symbolic execution against reference renderers, SMT-decided buffer bounds"),
+ "C03": ("Bounded model checking of encode/decode round trips: every encoder (Ethernet, IPv4, IPv6, UDP, ARP, ICMP echo, NDP NA/NS, DNS query, DHCPv4 with arbitrary options and order lists) is executed symbolically with all field values symbolic, symbolic payload lengths and symbolic buffer capacities; the result is decoded by the library's own views and by reference extraction at RFC positions and asserted equal; AppendPayload returns ErrPayloadTooBig exactly when the payload exceeds the remaining capacity (any out-of-capacity store is a panic obligation); composed Ether/IP/UDP frames are classified by the real Parse.",
+         "Trusted: go/ssa, gse semantics, z3, reference extraction helpers. Bounds in evidence.bounds (DHCP option sets are small; all map iteration orders explored).",
+         "DESIGN.md §4 C03", "bounded symbolic execution of encoders + decoders, SMT-decided round-trip equalities, layered arrays for symbolic-length payloads"),
 }
 
 NOT_APPLICABLE = {
